@@ -368,7 +368,11 @@ impl NetcodeServer {
             let packet = Packet::Payload(payload);
             let len = packet.encode(&mut self.out, self.protocol_id, Some((client.sequence, &client.send_key)))?;
             client.sequence += 1;
-            client.last_packet_send_time = self.current_time;
+            // Until the client confirms the connection it is still waiting for a keep alive packet,
+            // payload packets must not postpone it
+            if client.confirmed {
+                client.last_packet_send_time = self.current_time;
+            }
 
             return Ok((client.addr, &mut self.out[..len]));
         }
